@@ -106,7 +106,7 @@ fn run_script_t(lines: &[String], watchdog: Duration) -> Result<Vec<String>, Fai
     let mut out = Vec::new();
     let mut seen = 0;
     while seen < expected_ready {
-        match p.read_until("readyok", watchdog) {
+        match p.read_until_or_idle("readyok", watchdog, Duration::from_secs(5)) {
             Ok(ls) => {
                 out.extend(ls.iter().map(|l| normalise(l)));
                 out.push("readyok".into());
@@ -196,7 +196,7 @@ fn compare_newgame(prefix: &[String], suffix: &[String], newgames: usize, stats:
     p.send("isready");
     let n_ready = prefix.iter().filter(|l| l.trim() == "isready").count() + 1;
     for _ in 0..n_ready {
-        if p.read_until("readyok", Duration::from_secs(60)).is_err() {
+        if p.read_until_or_idle("readyok", Duration::from_secs(60), Duration::from_secs(5)).is_err() {
             return Err(Failure::new("harness-timeout-or-exit", json!({"script": prefix, "stdout": p.transcript})));
         }
     }
@@ -211,7 +211,7 @@ fn compare_newgame(prefix: &[String], suffix: &[String], newgames: usize, stats:
     let n_ready2 = suffix.iter().filter(|l| l.trim() == "isready").count() + 1;
     let mut after: Vec<String> = Vec::new();
     for _ in 0..n_ready2 {
-        match p.read_until("readyok", Duration::from_secs(60)) {
+        match p.read_until_or_idle("readyok", Duration::from_secs(60), Duration::from_secs(5)) {
             Ok(ls) => {
                 after.extend(ls.iter().map(|l| normalise(l)));
                 after.push("readyok".into());
